@@ -242,9 +242,31 @@ def integer_fill_strategy(tier):
     return build()
 
 
+def integer_nofill_strategy(tier):
+    """Grid conventions, integer variables WITHOUT any fill value (they cannot hold 'missing', so
+    unselected cells inside the crop window keep their values), scattered selections."""
+    from hypothesis import strategies as st
+    from vf.props import c07
+
+    @st.composite
+    def build(draw):
+        case = draw(_clip.clip_cases(convs=["cf1d", "cf2d", "shoc_simple", "arakawa", "shoc_standard"]))
+        spec = case["spec"]
+        for var in spec["vars"]:
+            if var["kind"] is not None:
+                var["dtype"] = draw(st.sampled_from(["i4", "i2"]))
+                var["fill"] = None
+                var.pop("nan", None)
+        case["geom"] = {"type": "multi", "parts": [
+            {"type": "cell", "cell": draw(st.integers(0, 63))}, {"type": "cell", "cell": draw(st.integers(0, 63))}]}
+        return case
+    return build()
+
+
 SUBS = [
     Sub("clip", strategy, check_case, quick=150, thorough=600),
     Sub("integer_fill_values", integer_fill_strategy, check_case, quick=40, thorough=200),
+    Sub("integers_without_fill_value", integer_nofill_strategy, check_case, quick=30, thorough=150),
     Sub("mesh_edge_dimension_without_tables", edge_dimension_only_strategy, check_case,
         quick=20, thorough=100),
     Sub("clip_meshes", mesh_strategy, check_case, quick=60, thorough=300),
